@@ -168,18 +168,26 @@ WPATH = st.tuples(st.sampled_from(["", "/", "//", ""]), st.lists(WSEG, max_size=
 ACROSS = st.tuples(st.just("RNFR>RELOGIN>RNTO"), st.sampled_from(["f", "/f", "/a/f", "/a", "", "a/../f"]))
 
 
+# ... and a change of working directory: the source stays the location addressed when RNFR was sent
+MOVED = st.tuples(st.just("RNFR>CWD>RNTO"), st.sampled_from(["f", "a/f", "./f", "a/../f", "../f", "b/../f"]),
+                  st.sampled_from(["a", "/a", "/a/b", "..", "a/b", "/"])).map(lambda t: (t[0], t[1] + "|" + t[2]))
+
+
 def _expand(cmds):
     out = []
     for verb, arg in cmds:
         if verb == "RNFR>RELOGIN>RNTO":
             out += [("RNFR", arg), ("RELOGIN", ""), ("RNTO", "moved")]
+        elif verb == "RNFR>CWD>RNTO":
+            src, _, to = arg.partition("|")
+            out += [("RNFR", src), ("CWD", to), ("RNTO", "moved2")]
         else:
             out.append((verb, arg))
     return out
 
 
 WIRE = st.tuples(st.sampled_from(["mem", "fs"]),
-                 st.lists(st.one_of(st.tuples(st.sampled_from(VERBS), WPATH), st.tuples(st.sampled_from(VERBS), WPATH), ACROSS),
+                 st.lists(st.one_of(st.tuples(st.sampled_from(VERBS), WPATH), st.tuples(st.sampled_from(VERBS), WPATH), ACROSS, MOVED),
                           min_size=3, max_size=25).map(_expand),
                  st.sampled_from(["/", "/a", "/a/b"]))
 INSIDE = {"/": DIR, "/a": DIR, "/a/b": DIR, "/a/f": b"inside-file", "/f": b"root-file"}
@@ -229,6 +237,7 @@ async def _wire(loop, backend, cmds, home, tmp, info):
     ctl.log.clear()
     model_cwd = home
     base_parts = base.parts
+    rnfr_addr = None
     try:
         for verb, arg in cmds:
             n0 = len(ctl.log)
@@ -249,6 +258,7 @@ async def _wire(loop, backend, cmds, home, tmp, info):
                 if not ok:
                     raise Violation("C02/wire/relogin_refused", dict(steps=info["steps"][-5:]))
                 base_parts = bases[cur[0]].parts
+                rnfr_addr = None
                 canary0 = snap()
                 info["relogins"] = info.get("relogins", 0) + 1
                 continue
@@ -288,6 +298,24 @@ async def _wire(loop, backend, cmds, home, tmp, info):
                         who = "after_relogin" if info.get("relogins") else "first_login"
                         raise Violation(f"C02/wire/backend_asked_outside_base/{verb}/{name}/{where}/target={tgt}/{who}",
                                         dict(asked=one, op=name, base=str(bases[cur[0]]), cmd=line, cwd=model_cwd, steps=info["steps"][-5:]))
+            # ... and about the location the command addresses (or an ancestor / descendant of it: parent checks, listed
+            # children), resolved when the command arrives; for RNTO also the location addressed by the pending RNFR
+            addr = pathlib.PurePosixPath(*base_parts, *oracle(model_cwd, arg if verb != "CDUP" else ".."))
+            allowed = [addr] + ([rnfr_addr] if verb == "RNTO" and rnfr_addr is not None else [])
+            for name, p in ctl.log[n0:]:
+                if p is None:
+                    continue
+                for one in p.split(" -> "):
+                    pp = pathlib.PurePosixPath(one)
+                    if not any(pp == a or a in pp.parents or pp in a.parents for a in allowed):
+                        raise Violation(f"C02/wire/backend_asked_about_another_location/{verb}/{name}",
+                                        dict(asked=one, op=name, addressed=[str(a) for a in allowed], cmd=line, cwd=model_cwd,
+                                             steps=info["steps"][-5:]))
+            # a refused RNFR / RNTO leaves an earlier pending RNFR in place (the handler body did not run)
+            if verb == "RNFR" and code == "350":
+                rnfr_addr = addr
+            elif verb == "RNTO" and code in ("250", "451"):
+                rnfr_addr = None
             if verb in ("CWD", "CDUP") and code == "250":
                 model_cwd = "/" + "/".join(oracle(model_cwd, arg if verb == "CWD" else ".."))
                 code2, l2 = await raw.cmd("PWD")
